@@ -397,9 +397,16 @@ def _mul_shapes(g, sz, route):
     return m, l, n
 
 
+SAME_BIAS = None      # set by an engine: probability of the squaring form (both factors the same object, square shape)
+
+
 def _mul(name, accumulate, param):
     def b(g, W, sz):
         m, l, n = _mul_shapes(g, sz, name)
+        force_same = False
+        if name in ("mul", "addmul", "mul_mp", "addmul_mp") and g.rng.random() < (0.1 if SAME_BIAS is None else SAME_BIAS):
+            m = l = n = g.rng.choice([1, 17, 63, 64, 65, 100, 127, 128, 129, 192, 200, 256, g.dim(sz), g.dim(sz)])
+            force_same = g.rng.random() < 0.6
         ra, ka = g.rows(m, l)
         rb, kb = g.rows(l, n)
         la, da = g.operand("A", m, l, ra, W("A"))
@@ -434,7 +441,7 @@ def _mul(name, accumulate, param):
                 lc, dc, cn = _dst(g, lambda role: None, "C", m, n)
             lines = la + lb + lc + ["call %s R %s A B%s" % (name, cn, p)]
             return _finish(lines, da + db + dc + (["R"] if cn == "-" else [])), dict(shape=(m, l, n), kinds=(ka, kb, "shared-view"), param=p.strip(), same=False)
-        if m == l == n and W("A") is None and W("B") is None and g.rng.random() < 0.3 and name in ("mul", "addmul", "mul_mp", "addmul_mp"):
+        if m == l == n and (W("A") is not None or W("B") is None) and (force_same or g.rng.random() < 0.3) and name in ("mul", "addmul", "mul_mp", "addmul_mp"):
             same = True      # squaring route: both factors the same object
             lines = la + lc + ["call %s R %s A A%s" % (name, cn, p)]
             dumps = da + dc
@@ -621,6 +628,10 @@ REC_WORDS = 512
 
 def _rec_shape(g, cap):
     r = g.rng
+    if REC_WORDS <= 1024 and r.random() < 0.08:
+        # one word of columns above the size cut-off: the "ncols <= 64 => base case" clause of _mzd_ple alone keeps
+        # these out of the column-splitting recursion (whose split point would be 0)
+        return REC_WORDS + r.choice([1, 2, r.randint(1, 60)]), r.choice([64, 64, 63, 33])
     n = min(max(cap, 65), r.choice([65, 100, 127, 128, 129, 130, 130, 191, 192, 193, 200, 257, 300]))
     need = REC_WORDS // ((n + 63) // 64) + 1
     return need + r.choice([0, 1, 2, 7, r.randint(0, 40), r.randint(0, 120)]), n
@@ -767,7 +778,7 @@ def _trsm(name, upper, left):
         lt, dt = g.operand("T", n, n, rt, W("T"))
         lb, db = g.operand("B", br, bc, rb, W("B"))
         cut = g.rng.choice(_SCUT)
-        return _finish(lt + lb + ["call %s T B %d" % (name, cut)], dt + db), dict(shape=(n, w), kinds=("tri+garbage" if garbage else "tri", kb),
+        return _finish(lt + lb + ["call %s T B %d" % (name, cut)], dt + db), dict(shape=(n, w), kinds=(("tri+garbage/" if garbage else "tri/") + g.last_tri_style, kb),
                                                                                   param=cut, upper=upper, left=left)
     op(name, "C04", ["T", "B"])(b)
 
@@ -827,7 +838,7 @@ def b_trtri_upper_russian(g, W, sz):
         w = dict(w)
         w["wo"] = (w["wo"] // 2 * 2) if "wo" in w else g.rng.choice([0, 2])     # odd word offsets: recorded finding F9
     la, da = g.operand("A", n, n, ra, w)
-    return _finish(la + ["call trtri_upper_russian A %d" % k], da), dict(shape=(n, n), kinds=("tri+garbage" if garbage else "tri",), k=k,
+    return _finish(la + ["call trtri_upper_russian A %d" % k], da), dict(shape=(n, n), kinds=(("tri+garbage/" if garbage else "tri/") + g.last_tri_style,), k=k,
                                                                          width=(n + 63) // 64)
 
 
@@ -838,7 +849,7 @@ def b_trtri_upper(g, W, sz):
     garbage = g.rng.random() < 0.5
     ra = g.unit_tri_rows(n, True, garbage=garbage)
     la, da = g.operand("A", n, n, ra, W("A"))
-    return _finish(la + ["call trtri_upper A"], da), dict(shape=(n, n), kinds=("tri+garbage" if garbage else "tri",), width=(n + 63) // 64)
+    return _finish(la + ["call trtri_upper A"], da), dict(shape=(n, n), kinds=(("tri+garbage/" if garbage else "tri/") + g.last_tri_style,), width=(n + 63) // 64)
 
 
 # ------------------------------------------------------------------------------------------------
@@ -869,6 +880,17 @@ def _solve_system(g, sz):
         ra, ka = _gen.rank_profile_rows2(g, m, n, "fullrank")
     elif ck < 0.78:
         ra, ka = [0] * m, "zero"
+    elif ck < 0.9 and min(m, n) >= 2:
+        # structured systems: A = L * U (cut / padded to m x n) with sparse or structured unit triangular factors, many
+        # right-hand sides: rows and column blocks of U without entries (data-dependent shortcuts of the table-driven
+        # back-substitution)
+        d = max(m, n)
+        st = r.choice(["sparse", "few", "colsparse", "band", "rowsparse"])
+        L = g.unit_tri_rows(d, False, garbage=False, style=r.choice(["few", "sparse", st]))
+        U = g.unit_tri_rows(d, True, garbage=False, style=st)
+        ra = [x & ((1 << n) - 1) for x in _gen.mat_mul_rows(L, U)[:m]]
+        ka = "LU-" + st
+        w = r.choice([64, 65, 100, 128, 130, w])
     else:
         ra, ka = g.rows(m, n)
     rows_b = max(m, n)
